@@ -202,6 +202,7 @@ class ConfigParser(object):
     self._delegate = parser_delegate
     self._within_block = False
     self._statements_queue = collections.deque()
+    self._end_of_statement_pending = False
     self._advance_one_token()
 
   def __iter__(self):
@@ -226,6 +227,13 @@ class ConfigParser(object):
     """
     if self._statements_queue:
       return self._statements_queue.popleft()
+
+    if self._end_of_statement_pending:
+      # Only now move past the token that ended the previous statement: if
+      # reading or tokenizing what follows fails, the previous statement has
+      # already been returned (and applied).
+      self._end_of_statement_pending = False
+      self._advance_one_token()
 
     self._skip_whitespace_and_comments()
     if self._current_token.type == tokenize.ENDMARKER:
@@ -262,7 +270,7 @@ class ConfigParser(object):
       self._raise_syntax_error('Expected newline.')
 
     if self._current_token.type != tokenize.ENDMARKER:
-      self._advance_one_token()
+      self._end_of_statement_pending = True
 
     return statement
 
